@@ -235,3 +235,12 @@ Example fw_example : forall y, (0 <= nth 0 y 0 <= 1 /\ length y = 1%nat) -> dot 
 Proof.
   intros [|a [|b y]] [Hy HL]; simpl in HL; try lia. simpl in Hy. unfold dot; simpl. lra.
 Qed.
+
+(* ---- solver options: every call starts from the defaults; only the keys the caller passes are overridden ---- *)
+Lemma solve_options_spec {A} `{Num A} (u : sopts A) :
+  so_ftol (solve_options u) = match so_ftol u with Some v => Some v | None => Some (ndiv n1 (nofZ 1000000)) end /\
+  so_maxiter (solve_options u) = match so_maxiter u with Some v => Some v | None => Some 1000%Z end /\
+  so_disp (solve_options u) = match so_disp u with Some v => Some v | None => Some false end.
+Proof. destruct u as [[f|] [m|] [d|]]; repeat split; reflexivity. Qed.
+Lemma solve_options_no_override {A} `{Num A} : solve_options (@Build_sopts A None None None) = default_opts.
+Proof. reflexivity. Qed.
